@@ -235,6 +235,14 @@ def runC03 (t : Tier) : Emit Unit := do
       let st : Spec.StreamModel := { units := [pat0, u], schedule := [] }
       emit "C03" (demuxCase st.bytes { view := .seq } none none "huge-section-on-table-pid")
       emit "C03" (outcomesCase st.bytes { size := 0, kind := .bufio } "huge-section-on-table-pid")
+  -- sections of every table family announcing 0..12 bytes (shorter than their fixed fields), followed by more bytes
+  for (tid, pidT) in [(0x00, 0), (0x02, 0x1000), (0x42, 0x11), (0x40, 0x10), (0x4e, 0x12), (0x73, 0x14), (0x70, 0x14)] do
+    for sl in [0:13] do
+      let junk ← liftGen (randBytes 40)
+      let unit : Bytes := [0, tid, 0xb0, sl] ++ junk
+      let u : Spec.TSUnit := { pid := pidT, payload := unit, data := [], psi := true, chunks := [unit.length] }
+      let st : Spec.StreamModel := { units := (if pidT = 0 then [u] else [pat0, u]), schedule := [] }
+      emit "C03" (demuxCase st.bytes { view := .seq } none none "tiny-section-length")
   -- PES units whose length fields contradict each other and the unit (PES_packet_length x PES_header_data_length x
   -- flags x unit size), one unit per stream
   for sid in [0xe0, 0xc0, 0xbd] do
